@@ -1,3 +1,4 @@
+import AquaVerif.Generated.ResetFields
 import AquaVerif.Proofs.Seasons
 import AquaVerif.Proofs.Response
 import AquaVerif.Model.Reset
@@ -156,12 +157,24 @@ theorem reset_classes_disjoint_and_declared :
     (∀ f ∈ resetOnlyWhenOffSeasonSkipped, f ∈ resetFields) := by
   decide
 
-/-- The finding: exactly one attribute could not be justified — `cc0_adj`. -/
-theorem known_leaks_are : knownLeaks = ["cc0_adj"] := rfl
+/-- No attribute is left unjustified (the former finding `cc0_adj` is repaired in /repo). -/
+theorem known_leaks_are : knownLeaks = [] := rfl
 
 /-- `e_pot` and `t_pot` (yesterday's potential evaporation / transpiration, read by `irrigation`
 on the first day of the next season) are reset (repository commit 0e36d37). -/
 theorem evaporation_and_transpiration_demand_reset : "e_pot" ∈ resetFields ∧ "t_pot" ∈ resetFields := by
   decide
+
+/-- Tie to the source, re-proved on every run: the state object of /repo has exactly the reviewed
+fields (table regenerated by `harness/translate/resetfields.py`) … -/
+theorem state_fields_match_source :
+    (∀ f ∈ Aqua.Generated.allFieldsGen, f ∈ allFields) ∧ (∀ f ∈ allFields, f ∈ Aqua.Generated.allFieldsGen) :=
+  Aqua.Generated.allFields_match
+
+/-- … and `reset_initial_conditions` in /repo assigns exactly the reviewed reset fields: a dropped
+or added reset, or a new state field, breaks this obligation. -/
+theorem reset_fields_match_source :
+    (∀ f ∈ Aqua.Generated.resetFieldsGen, f ∈ resetFields) ∧ (∀ f ∈ resetFields, f ∈ Aqua.Generated.resetFieldsGen) :=
+  Aqua.Generated.resetFields_match
 
 end Aqua.C08
